@@ -64,6 +64,10 @@ SNIPPETS = [
     # comprehension scopes whose first constant is neither None nor a string and was optimised away; the first LOADED
     # constant is a string at index 1 (the encoder's "prepend None" rule must not apply)
     ("exec", "x = []\na = ['a' for c in x if 5]\nb = {c: 'a' for c in x if 1}\nc = ['a' if 5 else 'b' for c in x]\nd = list('a' for c in x if 2.5)\n"),
+    # one source line whose bytecode is an exact multiple of the line-table limits (254 / 255 bytes, 508 / 510)
+    ("exec", "x = [" + ", ".join(["a"] * 125) + "]\ny = 1\n"),
+    ("exec", "x = [" + ", ".join(["a"] * 252) + "]\ny = 1\n"),
+    ("exec", "x = [" + ", ".join(["a"] * 253) + "]\ny = 1\nz = [" + ", ".join(["a"] * 508) + "]\nw = 2\n"),
     # dead lines after the final return (<=3.9: an _additional_line with additional offsets)
     ("exec", "def f():\n    return 1\n    x = 2\n    y = 3\n"),
     # co_consts holds two equal tuples on <=3.9 (folded defaults) and both are referenced, one of them again later
